@@ -487,7 +487,7 @@ func run(c *vf.Ctx) {
 	wg.Wait()
 
 	c.Require("evaluations", c.Pick(2000, 100000))
-	c.Require("gated_windows_entered", c.Pick(250, 10000))
+	c.Require("gated_windows_entered", c.Pick(250, 5000))
 	c.Require("window:"+ptAfterCheck, 50)
 	c.Require("window:"+ptBeforePush, 50)
 	c.Require("window:"+ptBeforeWait, 50)
